@@ -100,7 +100,7 @@ static void json_att(int ncid, int varid, int k)
         rc = ncmpi_inq_att(ncid, varid, name, &xt, &len);
         ncmpi_inq_attid(ncid, varid, name, &id);
         OUT(",\"rc2\":%d,\"t\":%d,\"len\":%lld,\"id\":%d", rc, xt, (long long)len, id);
-        if (rc == NC_NOERR && len < 100000 && xt >= 1 && xt <= 11) {
+        if (rc == NC_NOERR && len < 4000000 && xt >= 1 && xt <= 11) {
             int mem = mt_of_xtype(xt), sz = mt_size[mem]; unsigned char *b = malloc((size_t)len * sz + 8);
             rc = ncmpi_get_att(ncid, varid, name, b);
             OUT(",\"rc3\":%d,\"v\":", rc);
